@@ -479,10 +479,8 @@ func (g *gen) enumDecl(sc *scope) *Decl {
 			m.Val = int64(g.rng.Intn(2000) - 500)
 			if g.rng.Intn(8) == 0 {
 				// extremes of int32; the maximum only in last position (no successor value exists)
-				m.Val = []int64{-2147483648, 0, 2147483646}[g.rng.Intn(3)]
-				if i == n-1 {
-					m.Val = 2147483647
-				}
+				// (the members after it may be automatic: leave room for them below the maximum)
+				m.Val = []int64{-2147483648, 0, 2147483647 - int64(n-1-i)}[g.rng.Intn(3)]
 			}
 			g.feat("enum:member-value")
 		case 1:
@@ -611,31 +609,79 @@ func noNamed(t *Ty) bool {
 	return false
 }
 
+// paramShapes: positions of out parameters in a parameter list ('i' = in, 'o' = out): none, no outs,
+// only outs, out first / in the middle / last, several outs interleaved with ins
+var paramShapes = []string{"", "i", "ii", "iii", "o", "oo", "oi", "io", "oii", "ioi", "iio", "ooi", "oio", "ioo",
+	"oioi", "ioio", "ooii", "iioo", "oiio", "ioioi", "oiooi"}
+
+func shapeClass(sh string) []string {
+	if sh == "" {
+		return []string{"call:no-params"}
+	}
+	if !strings.Contains(sh, "o") {
+		return []string{"call:no-out"}
+	}
+	var cs []string
+	if !strings.Contains(sh, "i") {
+		cs = append(cs, "call:only-outs")
+	} else {
+		if sh[0] == 'o' {
+			cs = append(cs, "call:out-first")
+		}
+		if sh[len(sh)-1] == 'o' {
+			cs = append(cs, "call:out-last")
+		}
+		if i := strings.Index(sh, "io"); i >= 0 && strings.Contains(sh[i+2:], "i") {
+			cs = append(cs, "call:out-middle")
+		}
+		if strings.Contains(sh, "oi") {
+			cs = append(cs, "call:out-before-in")
+		}
+	}
+	if strings.Count(sh, "o") > 1 {
+		cs = append(cs, "call:several-outs")
+	}
+	return cs
+}
+
+func (g *gen) funcOfShape(sc *scope, sh string, withRet bool) Func {
+	f := Func{Name: g.name("fn", true)}
+	if withRet {
+		f.Ret = g.ty(sc, 2)
+		g.feat("func:ret-value")
+	} else {
+		g.feat("func:ret-void")
+	}
+	for _, c := range sh {
+		p := Param{Out: c == 'o', Ty: g.ty(sc, 2), Name: g.name("p", true)}
+		if p.Out {
+			g.feat("param:out")
+		} else {
+			g.feat("param:in")
+		}
+		f.Params = append(f.Params, p)
+	}
+	for _, c := range shapeClass(sh) {
+		g.feat(c)
+	}
+	return f
+}
+
 func (g *gen) ifaceDecl(sc *scope) *Decl {
 	d := &Decl{Kind: "interface", Name: g.name("If", true)}
 	n := 1 + g.rng.Intn(4)
 	for i := 0; i < n; i++ {
-		f := Func{Name: g.name("fn", true)}
-		if g.rng.Intn(3) != 0 {
-			f.Ret = g.ty(sc, 2)
-			g.feat("func:ret-value")
-		} else {
-			g.feat("func:ret-void")
-		}
-		np := g.rng.Intn(5)
-		for j := 0; j < np; j++ {
-			p := Param{Out: g.rng.Intn(3) == 0, Ty: g.ty(sc, 2), Name: g.name("p", true)}
-			if p.Out {
-				g.feat("param:out")
-			} else {
-				g.feat("param:in")
-			}
-			f.Params = append(f.Params, p)
-		}
-		if np == 0 {
-			g.feat("func:no-params")
-		}
-		d.Funcs = append(d.Funcs, f)
+		d.Funcs = append(d.Funcs, g.funcOfShape(sc, paramShapes[g.rng.Intn(len(paramShapes))], g.rng.Intn(3) != 0))
+	}
+	return d
+}
+
+// shapesIface: one interface with every parameter shape, alternately void and with a return value
+func (g *gen) shapesIface(sc *scope) *Decl {
+	d := &Decl{Kind: "interface", Name: g.name("IfShapes", false)}
+	off := g.rng.Intn(2)
+	for i, sh := range paramShapes {
+		d.Funcs = append(d.Funcs, g.funcOfShape(sc, sh, (i+off)%2 == 0))
 	}
 	return d
 }
@@ -694,7 +740,7 @@ func (g *gen) module(name string, sc *scope, nd int) *Module {
 // edges: exotic-but-valid constructs, at most one per program, so that a defect behind one of them
 // does not hide the others
 var edges = []string{"optional-byte-nodefault", "enum-default-lower", "enum-ref-lower", "enum-ref-auto",
-	"array-of-byte", "array-of-named", "multi-module", "include", "crosswise"}
+	"array-of-byte", "array-of-named", "multi-module", "include", "crosswise", "call-shapes"}
 
 // GenProg draws one valid program.
 func GenProg(rng *rand.Rand, id int, edge string, big bool) *Prog {
@@ -723,6 +769,24 @@ func GenProg(rng *rand.Rand, id int, edge string, big bool) *Prog {
 			name = fmt.Sprintf("mod%dx%d", id, i)
 		}
 		main.Modules = append(main.Modules, g.module(name, sc, nd))
+	}
+	if edge == "call-shapes" {
+		// every in/out parameter shape in one interface, appended to the last module (all types
+		// declared so far are in scope)
+		m := main.Modules[len(main.Modules)-1]
+		sc.mod = m.Name
+		for d, mm := range sc.emod {
+			if mm == m.Name {
+				sc.emod[d] = ""
+			}
+		}
+		m.Decls = append(m.Decls, g.shapesIface(sc))
+		g.feat("decl:interface")
+		for d, mm := range sc.emod {
+			if mm == "" {
+				sc.emod[d] = m.Name
+			}
+		}
 	}
 	g.applyEdge(p)
 	return p
@@ -853,6 +917,68 @@ func (t *Ty) GoType(cur string) string {
 		return t.Mod + "." + upperFirst(t.Name)
 	}
 	return upperFirst(t.Name)
+}
+
+// GoTypeQ: the Go type with every named type qualified by the marker @Module@ (replaced by the import
+// alias of that module's package in the call driver)
+func (t *Ty) GoTypeQ() string {
+	switch t.Kind {
+	case "vector":
+		return "[]" + t.K.GoTypeQ()
+	case "map":
+		return "map[" + t.K.GoTypeQ() + "]" + t.V.GoTypeQ()
+	case "named":
+		return "@" + t.Mod + "@." + upperFirst(t.Name)
+	}
+	return t.GoType("")
+}
+
+// CallIface describes one generated interface for the call-level translation validation.
+type CallIface struct {
+	Mod   string     `json:"mod"`
+	Name  string     `json:"name"` // IDL name
+	Funcs []CallFunc `json:"funcs"`
+}
+
+type CallFunc struct {
+	Name   string      `json:"name"` // IDL name (= SFuncName)
+	Ret    string      `json:"ret,omitempty"`
+	Params []CallParam `json:"params,omitempty"`
+}
+
+type CallParam struct {
+	Name   string `json:"name"`
+	Out    bool   `json:"out,omitempty"`
+	Struct bool   `json:"struct,omitempty"` // passed by pointer although it is an in parameter
+	Type   string `json:"type"`
+}
+
+// CallIfaces lists the interfaces a program declares.
+func (p *Prog) CallIfaces() []CallIface {
+	var out []CallIface
+	for _, f := range p.Files {
+		for _, m := range f.Modules {
+			for _, d := range m.Decls {
+				if d.Kind != "interface" {
+					continue
+				}
+				ci := CallIface{Mod: m.Name, Name: d.Name}
+				for _, fn := range d.Funcs {
+					cf := CallFunc{Name: fn.Name}
+					if fn.Ret != nil {
+						cf.Ret = fn.Ret.GoTypeQ()
+					}
+					for _, pr := range fn.Params {
+						cf.Params = append(cf.Params, CallParam{Name: pr.Name, Out: pr.Out,
+							Struct: pr.Ty.Kind == "named" && !pr.Ty.IsEnum, Type: pr.Ty.GoTypeQ()})
+					}
+					ci.Funcs = append(ci.Funcs, cf)
+				}
+				out = append(out, ci)
+			}
+		}
+	}
+	return out
 }
 
 // ExpectedStruct: "Name{Field GoType name,tag:N,require:B;...}" with members in ascending tag order
